@@ -4,6 +4,7 @@ import (
 	"fmt"
 	"path"
 	"strings"
+	"unicode/utf8"
 )
 
 // Reference model of INCLUDE resolution, written from the property text (C14) and the
@@ -147,6 +148,9 @@ func lexParam(rest string) (string, string) {
 		param, tail = sb.String(), s[i:]
 		if strings.ContainsAny(param, "\x00\x01\x02\x03\x04\x05\x06\x07\x08\x0b\x0c\x0e\x0f\x10\x11\x12\x13\x14\x15\x16\x17\x18\x19\x1a\x1b\x1c\x1d\x1e\x1f") {
 			return "", "abstain" // JSON-style unquoting of control characters is the library's business
+		}
+		if !utf8.ValidString(param) {
+			return "", "abstain" // ... and so is what it makes of invalid UTF-8 inside quotes (U+FFFD)
 		}
 	} else {
 		i := 0
